@@ -739,6 +739,24 @@ def aar_carrier(rng, k=0):
             'charge 13 30', 'rremove 1 low item 13', 'get 12 %d' % R]
     return 'scen:aar_carrier', u.lines(), ops, meta_of(ops, u.attr_ids(), setup)
 
+
+def unloaded_recall(rng, k=0):
+    """a launched drone becomes unloaded (the source is taken away, or the fit leaves the solar system), is
+    recalled while unloaded, and gets loaded again: the launched-drone count and the launched-drone validation
+    follow the state whatever the load status"""
+    X = 1010
+    u = U()
+    u.attr(X)
+    u.type(3100, 50, int(TC.ship), {X: 100})
+    u.type(3400, 53, int(TC.drone), {X: 100})
+    ops = base_world(1) + ['new 10 ship 3100 1 0', 'new 20 drone 3400 %d 0' % [3, 2, 3, 4][k % 4],
+                           'new 21 drone 3400 1 0', 'slot 1 ship 10', 'sadd 1 drones 20', 'sadd 1 drones 21']
+    setup = len(ops)
+    away, back = [('source 1 -', 'source 1 1'), ('ssrm 1 1', 'ssadd 1 1')][(k // 4) % 2]
+    ops += ['get 20 %d' % X, away, 'state 20 1', 'state 21 %d' % [2, 3][k % 2], back, 'get 20 %d' % X,
+            away, 'state 21 1', back, 'get 21 %d' % X]
+    return 'scen:unloaded_recall', u.lines(), ops, meta_of(ops, u.attr_ids(), setup)
+
 COMMANDS = {'solsys', 'fit', 'new', 'source', 'ssadd', 'ssrm', 'ssclear', 'slot', 'sadd', 'srm', 'sclear', 'skilldel',
             'rappend', 'rinsert', 'rplace', 'requip', 'rremove', 'rfree', 'rclear', 'charge', 'state', 'target',
             'mode', 'level', 'fladd', 'flrm', 'flclear', 'get', 'read', 'keys', 'm_mod', 'm_pymod', 'm_effect',
@@ -747,14 +765,14 @@ COMMANDS = {'solsys', 'fit', 'new', 'source', 'ssadd', 'ssrm', 'ssclear', 'slot'
 SCENARIOS = [cap_moves, resist_moves, chain_over_projection, burst_charge, buff_tie, retarget_reload, slot_index,
              propulsion, ancillary, propulsion_batch, rejected_assignment, autocharge_state, burst_nobase,
              refused_join, unloaded_container, drone_target, self_skillrq,
-             nested_autocharge, resist_mix, slot_zero, neg_index_hole, stale_no_effects, late_listing, aar_carrier]
+             nested_autocharge, resist_mix, slot_zero, neg_index_hole, stale_no_effects, late_listing, aar_carrier, unloaded_recall]
 
 
 def scenarios(rng, tier):
     n = 3 if tier == 'quick' else 60
     out = []
     for fn in SCENARIOS:
-        for k in range(max(n, {burst_charge: 6, propulsion_batch: 4, burst_nobase: 4, drone_target: 4, resist_mix: 5, neg_index_hole: 4, aar_carrier: 4}.get(fn, n))):
+        for k in range(max(n, {burst_charge: 6, propulsion_batch: 4, burst_nobase: 4, drone_target: 4, resist_mix: 5, neg_index_hole: 4, aar_carrier: 4, unloaded_recall: 8}.get(fn, n))):
             name, ul, ops, meta = fn(rng, k)
             bad = [l for l in ops if l.split()[0] not in COMMANDS]
             assert not bad, 'scenario %s uses unknown commands %r' % (name, bad)
